@@ -621,6 +621,7 @@ pub fn run(ctx: &Ctx) -> Report {
     });
     rep.merge(r);
 
+    rep.merge(super::mega::run(ctx, "C03", 1500, 60000));
     if ctx.strict() {
         for k in ["sentinel_pings_matched", "responses_compared_with_prediction", "more_results_set", "more_results_clear", "units_ok", "units_err", "units_resultset", "shape_contradictions_refused"] {
             rep.require(k, 1);
